@@ -111,6 +111,14 @@ func (e *Engine) inspection(run *load.GRun, in ssa.Instruction) bool {
 				if u.Op != token.EQL && u.Op != token.NEQ {
 					return false
 				}
+				// the comparison must be the atom itself: this coordinate against the zero Element (a comparison with
+				// another point's coordinate is a use of the value, not the guard's look at it)
+				if isZeroAggregate(u.X) || isZeroAggregate(u.Y) {
+					continue
+				}
+				if _, det := run.Val(u); !det {
+					return false
+				}
 			default:
 				return false
 			}
@@ -423,6 +431,11 @@ func (e *Engine) GGuard() []report.Obligation {
 	return out
 }
 
+func isZeroAggregate(v ssa.Value) bool {
+	c, ok := v.(*ssa.Const)
+	return ok && c.Value == nil
+}
+
 func induction(v ssa.Value) (int64, int64, bool) { return load.Induction(v) }
 
 // ---- G-LEN -----------------------------------------------------------------------
@@ -601,8 +614,9 @@ func (e *Engine) classify(f *ssa.Function, d CtrlDep, depth int) []string {
 			}
 			if h, k, ok := callResult(x); ok {
 				if isErr(x.Type()) && c.Value == nil && op == token.NEQ && e.P.InRepo(h) && depth < 6 {
-					// error propagated from a callee: inherit its error-site classes
-					return e.errorClasses(h, depth+1)
+					// error propagated from a callee: inherit its error-site classes — except those that cannot
+					// occur at this call because the slice it is handed has a constant length (x[:32], x[32:64])
+					return e.feasibleAt(x, h, e.errorClasses(h, depth+1))
 				}
 				return []string{fmt.Sprintf("PRED[%s#%d %s %s]", load.ShortName(h), k, op, cs)}
 			}
@@ -684,9 +698,16 @@ func (e *Engine) errorClasses(f *ssa.Function, depth int) []string {
 	}
 	for _, s := range sites {
 		var conj []string
+		infeasible := false
 		for _, d := range s.lits {
 			cs := e.classify(f, d, depth)
+			if len(cs) == 0 {
+				infeasible = true // every way this condition could hold is decided false here
+			}
 			conj = append(conj, strings.Join(cs, " ∨ "))
+		}
+		if infeasible {
+			continue
 		}
 		sort.Strings(conj)
 		if s.fwd != nil {
@@ -800,4 +821,129 @@ func (e *Engine) GAccept(fname string, want []string) report.Obligation {
 		o.Detail += "accepts more — missing (" + strings.Join(missing, ", ") + ")"
 	}
 	return o
+}
+
+var lenLit = regexp.MustCompile(`^LEN\[len\((\w+)\) (==|!=|<|<=|>|>=) (\d+)\]$`)
+
+// feasibleAt drops the inherited reject classes of callee h that are decided false at the call v comes
+// from: a length literal on a parameter whose argument here is a slice expression with constant bounds.
+func (e *Engine) feasibleAt(v ssa.Value, h *ssa.Function, classes []string) []string {
+	var call *ssa.Call
+	switch x := v.(type) {
+	case *ssa.Call:
+		call = x
+	case *ssa.Extract:
+		call, _ = x.Tuple.(*ssa.Call)
+	}
+	if call == nil {
+		return classes
+	}
+	constLen := map[string]int64{}
+	for i, a := range call.Common().Args {
+		sl, ok := a.(*ssa.Slice)
+		if !ok || i >= len(h.Params) {
+			continue
+		}
+		lo := int64(0)
+		if sl.Low != nil {
+			c, ok := sl.Low.(*ssa.Const)
+			if !ok || c.Value == nil {
+				continue
+			}
+			lo = c.Int64()
+		}
+		var hi int64
+		if sl.High != nil {
+			c, ok := sl.High.(*ssa.Const)
+			if !ok || c.Value == nil {
+				continue
+			}
+			hi = c.Int64()
+		} else if pt, ok := sl.X.Type().Underlying().(*types.Pointer); ok {
+			arr, ok := pt.Elem().Underlying().(*types.Array)
+			if !ok {
+				continue
+			}
+			hi = arr.Len()
+		} else if k, ok := guardedLen(sl.X, call.Block()); ok {
+			hi = k // x[lo:] below a dominating `if len(x) != K { reject }`
+		} else {
+			continue
+		}
+		constLen[h.Params[i].Name()] = hi - lo
+	}
+	if len(constLen) == 0 {
+		return classes
+	}
+	var out []string
+	for _, cl := range classes {
+		feasible := true
+		for _, lit := range strings.Split(cl, " ∧ ") {
+			m := lenLit.FindStringSubmatch(lit)
+			if m == nil {
+				continue
+			}
+			n, known := constLen[m[1]]
+			if !known {
+				continue
+			}
+			var k int64
+			fmt.Sscan(m[3], &k)
+			holds := map[string]bool{"==": n == k, "!=": n != k, "<": n < k, "<=": n <= k, ">": n > k, ">=": n >= k}[m[2]]
+			if !holds {
+				feasible = false
+			}
+		}
+		if feasible {
+			out = append(out, cl)
+		}
+	}
+	return out
+}
+
+// guardedLen: the slice value x has length K in block b because b is dominated by the equal side of a
+// comparison of len(x) with the constant K.
+func guardedLen(x ssa.Value, b *ssa.BasicBlock) (int64, bool) {
+	refs := x.Referrers()
+	if refs == nil {
+		return 0, false
+	}
+	for _, ref := range *refs {
+		c, ok := ref.(*ssa.Call)
+		if !ok {
+			continue
+		}
+		if bi, isB := c.Common().Value.(*ssa.Builtin); !isB || bi.Name() != "len" {
+			continue
+		}
+		for _, r2 := range *c.Referrers() {
+			bo, ok := r2.(*ssa.BinOp)
+			if !ok || (bo.Op != token.EQL && bo.Op != token.NEQ) {
+				continue
+			}
+			other := bo.Y
+			if bo.Y == ssa.Value(c) {
+				other = bo.X
+			}
+			k, isC := other.(*ssa.Const)
+			if !isC || k.Value == nil {
+				continue
+			}
+			for _, r3 := range *bo.Referrers() {
+				ifi, ok := r3.(*ssa.If)
+				if !ok {
+					continue
+				}
+				eqSide := 0
+				if bo.Op == token.NEQ {
+					eqSide = 1
+				}
+				succ := ifi.Block().Succs[eqSide]
+				if len(succ.Preds) == 1 && (succ == b || succ.Dominates(b)) {
+					return k.Int64(), true
+				}
+			}
+		}
+	}
+	return 0, false
 }
